@@ -398,6 +398,29 @@ theorem pool_refs_eq_holders {s : State} (h : Reachable s) (k : Key) : refs s k 
 example : ∃ s, Reachable s ∧ refs s 7 = 1 ∧ holders s 7 = 1 ∧ refs s 8 = 0 ∧ s.inflight 0 = 1 :=
   witness exR (by decide)
 
+/-- when nobody holds a key any more — every configuration that used it is unloaded, every loop
+    iteration that provisioned it has returned — the pool has let the entry go: nothing leaks -/
+theorem pool_entry_gone_when_nobody_holds {s : State} (h : Reachable s) (k : Key) (h0 : holders s k = 0) :
+    s.pool k = none := by
+  have hr := pool_refs_eq_holders h k
+  cases hp : s.pool k with
+  | none => rfl
+  | some v =>
+    obtain ⟨o, n⟩ := v
+    have := poolPos_reachable h k o n hp
+    simp [refs, hp] at hr; omega
+
+example : ∃ s, Reachable s ∧ holders s 8 = 0 ∧ s.pool 8 = none ∧ holders s 7 = 1 := witness exR (by decide)
+
+/-- what the admin endpoint `/reverse_proxy/upstreams` reports for a pooled address (admin.go ranges
+    over the pool and reads `NumRequests()` / `Fails()` of the pooled Host) is exact: the number of
+    requests being sent to that Host and the number of its failures not yet forgotten -/
+theorem admin_view_exact {s : State} (h : Reachable s) {k : Key} {o : HostId} {n : Nat} (_hp : s.pool k = some (o, n)) :
+    s.inflight o = (sendingCount s o : Int) ∧ s.fails o = (pendingForgetters s o : Int) :=
+  ⟨inflight_eq h o, fails_eq_pending_forgetters h o⟩
+
+example : ∃ s, Reachable s ∧ s.pool 7 = some (0, 1) ∧ s.inflight 0 = 1 ∧ sendingCount s 0 = 1 := witness exR (by decide)
+
 /-- **host_preserved_across_reload** — a step that leaves key `k` in use by some loaded handler
     keeps the very same Host object in the pool: `key ∈ old ∩ new → usage count ≥ 1 throughout,
     same Host` — for every interleaving, including the Cleanup of configurations whose Provision
